@@ -184,7 +184,7 @@ def e2e_part(ck: Check, rnd):
                 for dname, d in dirs.items():
                     d = d / np.linalg.norm(d)
                     label = f"{sname}|L{idx}|N={N}|dir={dname}"
-                    t = cs.trace(label, {"value_defect_small": -85, "value_law_excess": -100, "accel_law_excess": -100, "round_trip": -120},
+                    t = cs.trace(label, {"value_defect_small": -85 if g > 0.05 else -65, "value_law_excess": -100, "accel_law_excess": -100, "round_trip": -120},
                                  {"system": sname, "idx": idx, "N": N, "dir": dname})
                     ck.count(("taylor", label), True)
                     vd, ad = [], []
@@ -201,14 +201,17 @@ def e2e_part(ck: Check, rnd):
                         cs.obs(t, "round_trip", float(np.max(np.abs(s2l(L, s) - z))))
                     cs.obs(t, "value_defect_small", vd[0])
 
-                    def excess(seq, expo):
+                    def excess(seq, expo, floor=1e-12):
                         ex = 0.0
                         for a, b in zip(seq, seq[1:]):
-                            if a > 1e-12:            # above the rounding floor
-                                ex = max(ex, max(0.0, abs(math.log2(b / a) - expo) - 2.0))
+                            if a > floor and b > floor:            # above the rounding floor
+                                ex = max(ex, max(0.0, (expo - 2.0) - math.log2(b / a)))   # one-sided: decaying faster than the law is fine
                         return ex
-                    cs.obs(t, "value_law_excess", excess(vd, N + 1))
-                    cs.obs(t, "accel_law_excess", excess(ad, N) if ad else 0.0)
+                    vfloor = max(1e-12, 1e3 * 2.2e-16 * max(1.0, abs(E0)) / g ** 2)      # rounding of (E - E_L) / gamma^2
+                    afloor = max(1e-12, 1e3 * 2.2e-16 * max(1.0, 1.0 / g))                 # accelerations near the secondary
+                    cs.obs(t, "value_law_excess", excess(vd, N + 1, vfloor))
+                    cs.obs(t, "accel_law_excess", excess(ad, N, afloor) if ad else 0.0)
+                    t["data"] = dict(t["data"], value_defects=vd, accel_defects=ad)
                     if len(ck.cov["samples"]) < 4:
                         ck.sample({"case": label, "value_defects_r=0.01..0.08": vd, "accel_defects": ad})
     cs.decide(key_fn=lambda t, n: f"physical-hamiltonian|L{t['data']['idx']}|{n}")
